@@ -30,6 +30,8 @@ func c07Decl(opts flags.Options) *decl.Decl {
 	return d.Finish()
 }
 
+var c07UnitsTerminator = append(append([][]string{}, c07Units...), []string{"--"})
+
 var c07Units = [][]string{
 	// valid somewhere
 	{"-v"}, {"--ns.opt=1"}, {"-o", "x"}, {"add"}, {"rm"}, {"deep"}, {"--force"}, {"-f"}, {"--depth=2"}, {"-é5"}, {"w"}, {"--recursive"},
@@ -56,6 +58,9 @@ func init() {
 		{"fail+passdoubledash", flags.PassDoubleDash, ref.NoHandler},
 		{"ignore+passafternonoption", flags.IgnoreUnknown | flags.PassAfterNonOption, ref.NoHandler},
 		{"fail+helpflag", flags.HelpFlag, ref.NoHandler}, // a help request behind an unknown option does not rescue it
+		// a handler on a parser with PassDoubleDash: "exactly the not-yet-consumed arguments" includes a terminator and what follows it (C07-33)
+		{"handler-keep+passdoubledash", flags.PassDoubleDash, ref.HandlerKeep},
+		{"handler-drop-next+passdoubledash", flags.PassDoubleDash, ref.HandlerDropNext},
 	}
 	decls := map[flags.Options]*decl.Decl{}
 	body := func(c *explore.Ctx) {
@@ -84,9 +89,13 @@ func init() {
 			maxDepth-- // the reused-parser variants, the API build and the handler variants that rewrite the arguments go one unit less deep
 		}
 		n := c.Choose(maxDepth + 1)
+		units := c07Units
+		if pol.opts&flags.PassDoubleDash != 0 {
+			units = c07UnitsTerminator // the same alphabet and the terminator itself
+		}
 		var argv []string
 		for i := 0; i < n; i++ {
-			argv = append(argv, c07Units[c.Choose(len(c07Units))]...)
+			argv = append(argv, units[c.Choose(len(units))]...)
 		}
 		d := decls[pol.opts]
 		if d == nil {
@@ -206,7 +215,7 @@ func init() {
 		Level:      "model_checking",
 		ShardDepth: 5,
 		Body:       body,
-		Rule: "declaration with case-sensitive, namespaced and non-ASCII names and options that exist only in sibling / deeper commands; 10 policies (fail, fail+PassDoubleDash, fail+HelpFlag (with --help among the tokens), IgnoreUnknown, IgnoreUnknown+PassAfterNonOption, handler returning the arguments unchanged / dropping the next / consuming all of them (nil slice) / " +
+		Rule: "declaration with case-sensitive, namespaced and non-ASCII names and options that exist only in sibling / deeper commands; 12 policies (fail, fail+PassDoubleDash, fail+HelpFlag (with --help among the tokens), IgnoreUnknown, IgnoreUnknown+PassAfterNonOption, handler returning the arguments unchanged / dropping the next - each of these two also on a parser with PassDoubleDash, where the -- terminator is one more token of the alphabet and belongs to the not-yet-consumed arguments the handler is given / consuming all of them (nil slice) / " +
 			"inserting a token / returning an error) x {tags, API} x {fresh parser, parser that already parsed a vector selecting add/deep, selecting rm} x every sequence of <= 4 units (3 for the API build, the reused-parser and the argument-rewriting handler variants; thorough: one more for the fail and IgnoreUnknown policies, 4 for the rest) over 12 valid tokens and 24 near misses (incl. the bare namespace prefix of a group whose option has only a short name) (case flips, names containing % or a NUL character, an unknown -<digits> token while an int positional is pending, prefixes, one character dropped/added/changed, " +
 			"namespace missing/doubled/case-changed, unknown character at either end of a cluster, two unknown characters in one cluster, inline arguments, a neighbouring non-ASCII letter); beside that: options of a struct field excluded with no-flag and an option name prefixed with the parser's own Namespace are unknown; namespaces set on the parser and on commands (all 8 subsets of {parser, command, sub-subcommand} carrying one) x 3 command paths x 4 options x all 16 prefix spellings over {app, ad, dp, g} x {fail, IgnoreUnknown}: exactly the spelling with the namespaces of all enclosing commands and groups is defined; oracle = CLM scope tables and handler call log",
 		Assumptions:  []string{"IgnoreUnknown and a handler on one parser are not combined: the statement gives each policy its own sentence and does not rank them", "the ErrUnknownFlag message quotes (`name') the undefined name (for a cluster: the first letter naming nothing) or the name part of the token it stands in", "the name passed to the handler for a multi-character cluster is not asserted beyond: it mentions every character of the cluster, from the first unknown one on, that names no option in scope", "values of flags that precede an unknown character inside one cluster are not asserted"},
